@@ -19,6 +19,8 @@ thread_local! {
     pub static FUTURE_DATED: std::cell::Cell<bool> = const { std::cell::Cell::new(false) };
     /// make the operation's trigger event fire (C03 varies it)
     pub static FORCE_MAINTENANCE: std::cell::Cell<bool> = const { std::cell::Cell::new(false) };
+    /// plant two-hour-old debris in the .kismet_temp of every level (C15 varies it, together with FORCE_MAINTENANCE)
+    pub static STALE_DEBRIS: std::cell::Cell<bool> = const { std::cell::Cell::new(false) };
     /// thorough tier: the matrices also cover stacks with three read-only levels and values of 0 B and 3 x 8 KiB
     pub static DEEP: std::cell::Cell<bool> = const { std::cell::Cell::new(false) };
     /// an fsx controller to install for the duration of the operation
@@ -265,6 +267,19 @@ pub fn run_cell(cell: &Cell) -> CellRun {
                 copies.push(Some((rel, ino)));
             }
             None => copies.push(None),
+        }
+    }
+    if STALE_DEBRIS.with(|d| d.get()) {
+        let stale = run::base_time_ns() as i128 - 7_200_000_000_000;
+        for (i, &front) in levels.iter().enumerate() {
+            let homes: Vec<PathBuf> = match front {
+                Front::Plain => vec![level_dirs[i].clone()],
+                Front::Sharded(n) => (0..n.max(2)).map(|s| level_dirs[i].join(ops::shard_dir_name(s))).collect(),
+            };
+            for h in homes {
+                world::plant(&h.join(".kismet_temp/stale_debris"), b"debris", 0o600, stale, stale);
+                world::set_times(&h.join(".kismet_temp"), stale, stale);
+            }
         }
     }
     let cfg = StackCfg {
